@@ -404,7 +404,19 @@ def _r3(ctx, pkg):
     it = simp(lp.iter) if lp else None
     chk = it[2][0] if it and it[0] == "call" and it[1] == ("global", "enumerate") and len(it[2]) == 1 else ("const", None)
     ok_loop = lp is not None and it == ("call", ("global", "enumerate"), (chk,), ())
-    ctx.check(ok_loop, "R3", "loop", (NF, lp.line if lp else fn.lineno), "every entry of the check list is visited once, in order, with its index", found=show(it)[:100] if it else "")
+    if ok_loop:
+        ctx.ok("R3", "loop", (NF, lp.line), "every entry of the check list is visited once, in order, with its index")
+    else:
+        # understood and wrong: enumerate over a slice / reversed view of the list, or counting from another start; anything else
+        # (zip with a range, a generator helper, two nested loops) is a spelling this rule does not read
+        inner = it[2][0] if it and it[0] == "call" and it[1] == ("global", "enumerate") and it[2] else None
+        wrong = inner is not None and ((len(it[2]) == 2 and it[2][1] != ("const", 0)) or any(k == "start" and v != ("const", 0) for k, v in it[3])
+                                      or (inner[0] == "sub" and inner[2][0] == "slice") or (inner[0] == "call" and inner[1] == ("global", "reversed")))
+        if wrong:
+            ctx.bad("R3", "loop", (NF, lp.line), "every entry of the check list is visited once, in order, with its index", found=show(it)[:100])
+        else:
+            ctx.unrec("R3", "loop", (NF, lp.line if lp else fn.lineno), f"the scan is not a loop over enumerate(<check list>): {show(it)[:100] if it else 'no single loop around the store'}")
+            return
     ctx.check(cguards(st) == [(SEENK, False)], "R3", "store only when unseen", (NF, st.line),
               "a key enters `seen` exactly when it was not there", expected="if chk not in seen: seen[chk] = [idx]", found="; ".join(show(g)[:60] for g, _ in cguards(st)))
     idx = ("idx", chk, lp.id) if lp else None
@@ -436,17 +448,23 @@ def _r3(ctx, pkg):
                 P_first = projection(body_[2], idxes)
                 t = norm_guard((ifs_[0], True))
                 b_ = match(("cmp", (V("op"),), (V("y"), ("const", V("n")))), t[0])
-                if b_ and isinstance(b_["n"], int):
+                if t[0] in (idxes, ("call", ("global", "len"), (idxes,), ())):
+                    # truthiness of the entry / of its size: "at least one occurrence" (every entry), or -- negated -- none
+                    P_count, thr_ok = ("len",), False
+                elif b_ and isinstance(b_["n"], int):
                     P_count = projection(b_["y"], idxes)
                     op_, n_ = b_["op"], b_["n"]
                     # count > 1  in any of its spellings
-                    thr_ok = (t[1] and ((op_ == "Gt" and n_ == 1) or (op_ == "GtE" and n_ == 2))) or (not t[1] and ((op_ == "LtE" and n_ == 1) or (op_ == "Lt" and n_ == 2)))
+                    # (a count is at least 1: `!= 1` says the same)
+                    thr_ok = (t[1] and ((op_ == "Gt" and n_ == 1) or (op_ == "GtE" and n_ == 2))) or (not t[1] and ((op_ == "LtE" and n_ == 1) or (op_ == "Lt" and n_ == 2) or (op_ == "Eq" and n_ == 1)))
                 shape = bool(P_first) and bool(P_count)
     WF = (NF, rets[0].line if rets else fn.lineno)
     EXPF = "[reactions[idxes[0]] for _, idxes in seen.items() if len(idxes) > 1]"
     if not shape:
-        if c is not None and c[0] == "comp" and any(x == ACC_SEEN for x in walk(c)) and any(x == RL for x in walk(c)):
-            # a selection from the table that is not `reactions[<first position of the entry>] if <size of the entry> > 1`
+        nofilter = c is not None and c[0] == "comp" and len(c[3]) == 1 and not c[3][0][2] and c[3][0][1][0] == "meth" and c[3][0][1][1] == ACC_SEEN \
+            and c[3][0][1][2] in ("items", "values") and c[2][0] == "sub" and c[2][1] == RL
+        if nofilter:
+            # understood and wrong: one reaction per key of the table, repeated or not
             ctx.bad("R3", "first", WF, "`first` = reactions[idxes[0]] for every key seen more than once, in insertion order", expected=EXPF, found=show(c)[:140])
         else:
             ctx.unrec("R3", "first", WF, f"the list of first occurrences is not a selection from the first-seen table: {show(c)[:120] if c else 'no 3-tuple returned'}")
@@ -460,6 +478,9 @@ def _r3(ctx, pkg):
                 fields.setdefault(("attr", f_), fields[("sub", i_)])
     if fields is None:
         ctx.unrec("R3", "stored list non-empty", (NF, st.line), f"the entry created for a new key is not a display / record constructor this rule reads: {show(simp(st.value))[:80]}")
+        return
+    if P_first not in fields or P_count not in fields:
+        ctx.unrec("R3", "stored list non-empty", (NF, st.line), f"the entry created for a new key has no projection {P_first if P_first not in fields else P_count}: {show(simp(st.value))[:80]}")
         return
     ctx.check(fields.get(P_first) == idx and fields.get(P_count) == ONE, "R3", "stored list non-empty", (NF, st.line),
               "a new entry records the current position as the first one and counts one occurrence ([idx], or a record (idx, 1))",
@@ -491,6 +512,15 @@ def _r3(ctx, pkg):
             taut = False
             why = show(x)[:80]
         role = "dupes" if f.target == DUPES else "dupidx"
+        # positive evidence: the report sits in the not-seen arm / outside any test of the table, or the extra guard is a test of
+        # the entry's size this rule evaluates (len(entry) > 1 ..); any other extra guard is not read
+        sized = [x for x, p in extra if match(("cmp", (V("op"),), (V("y"), ("const", V("n")))), x) and projection(match(("cmp", (V("op"),), (V("y"), ("const", V("n")))), x)["y"], ENTRY) == P_count]
+        if not (bool(base_ok) and taut) and base_ok and not sized:
+            ctx.unrec("R3", f"report:{role}", (NF, f.line), f"the report is additionally guarded by `{why}`, which this rule does not evaluate")
+            continue
+        if not base_ok and any(about_table(x) and x != SEENK for x, _ in g):
+            ctx.unrec("R3", f"report:{role}", (NF, f.line), "the report is guarded by a test of the table this rule does not read: " + "; ".join(show(x)[:50] for x, _ in g))
+            continue
         ctx.check(bool(base_ok) and taut, "R3", f"report:{role}", (NF, f.line),
                   "a reaction is reported iff its key was seen before" if base_ok and taut else
                   f"the report is additionally guarded by `{why}`, which is not always true in the seen arm: the second member of a repeated class is not reported",
@@ -498,8 +528,16 @@ def _r3(ctx, pkg):
     i = [f for f in reports if f.target == DUPIDX][0]
     if derived is None:
         d = [f for f in reports if f.target == DUPES][0]
-        ctx.check(simp(i.value) == idx and simp(d.value) == ("sub", RL, idx), "R3", "report values", (NF, d.line),
-                  "the reported pair is (reactions[idx], idx) of the current entry", found=f"{show(simp(d.value))[:60]} / {show(simp(i.value))[:40]}")
+        iv, dv = simp(i.value), simp(d.value)
+        okv = iv == idx and dv == ("sub", RL, idx)
+        # understood and wrong: another position (arithmetic on the counter, a constant, the entry's first position), or an element of
+        # another list at the counter; anything else (an element handed over by zip, a helper) is not read
+        wrong_i = iv != idx and (iv[0] in ("const", "binop", "sub") or entry_of(iv) is not None)
+        wrong_d = dv[0] == "sub" and (dv[1] != RL or dv[2] != idx) and (dv[1] == RL or dv[2] == idx)
+        if okv or wrong_i or wrong_d:
+            ctx.check(okv, "R3", "report values", (NF, d.line), "the reported pair is (reactions[idx], idx) of the current entry", found=f"{show(dv)[:60]} / {show(iv)[:40]}")
+        else:
+            ctx.unrec("R3", "report values", (NF, d.line), f"the reported pair is not read as (reactions[idx], idx): {show(dv)[:60]} / {show(iv)[:40]}")
     else:
         # the reported reactions are read off the reported positions after the loop
         m = as_map(derived)
@@ -509,6 +547,9 @@ def _r3(ctx, pkg):
             ctx.check(simp(i.value) == idx and m[1] == ("sub", RL, m[0]) and not m[3], "R3", "report values", (NF, i.line),
                       "the reported pair is (reactions[idx], idx) of the current entry", found=f"{show(derived)[:60]} / {show(simp(i.value))[:40]}")
     # the count grows by exactly one at every later occurrence: one increment, in the seen arm, unconditionally
+    if len(cnt) != 1:
+        ctx.unrec("R3", "seen arm appends index", (NF, cnt[0][4].line), f"the count of an entry is changed at {len(cnt)} places: which runs when is not decided")
+        return
     gk, _, gkind, gv, g = cnt[0]
     gg = cguards(g)
     ok_g = len(cnt) == 1 and gkind == "inc" and gg == [(SEENK, True)] and gk == key and (P_count != ("len",) or gv == idx)
@@ -521,17 +562,35 @@ def _r3(ctx, pkg):
     if chk[0] in ("phi", "ifexp") and all(v is not None for v in leaves.values()):
         brief = leaves["brief"]
         m = as_map(brief)
-        ok_b = bool(m) and m[2] == RL and not m[3] and m[1] == ("call", ("global", "Reaction"), (("attr", m[0], "reactants"), ("attr", m[0], "products")), ())
-        ctx.check(ok_b, "R3", "mode brief", (NF, fn.lineno),
-                  "brief mode compares Reaction(reactants, products): the multisets of species, nothing else" if ok_b else
-                  "brief mode does not compare the reactant/product lists themselves (multiplicity or order information is lost or added)",
-                  expected="[Reaction(re.reactants, re.products) for re in reactions]", found=show(brief)[:120])
+
+        def sides_call(c):
+            """Reaction(x.reactants, x.products) in any argument spelling -> the two arguments by role, else None"""
+            if c[0] != "call" or c[1] != ("global", "Reaction"):
+                return None
+            kw = dict(c[3])
+            a = list(c[2]) + [kw[k] for k in ("reactants", "products")[len(c[2]):] if k in kw]
+            return tuple(a) if len(a) == 2 and len(c[2]) + len(kw) == 2 else None
+        ok_b = bool(m) and m[2] == RL and not m[3] and sides_call(m[1]) == (("attr", m[0], "reactants"), ("attr", m[0], "products"))
+        if not ok_b and not (m and m[2] == RL and not any(x[0] in ("call", "meth") and x[1] != ("global", "Reaction") and x[1] not in (("global", "frozenset"), ("global", "set"), ("global", "tuple"), ("global", "sorted"), ("global", "list"), ("global", "Counter"))
+                                                           for x in walk(m[1]) if isinstance(x, tuple) and x and x[0] in ("call", "meth"))):
+            # not a map over the reactions built from builtin containers of their attributes: a spelling this rule does not read
+            ctx.unrec("R3", "mode brief", (NF, fn.lineno), f"the keys compared in brief mode are not read: {show(brief)[:120]}")
+        else:
+          ctx.check(ok_b, "R3", "mode brief", (NF, fn.lineno),
+                    "brief mode compares Reaction(reactants, products): the multisets of species, nothing else" if ok_b else
+                    "brief mode does not compare the reactant/product lists themselves (multiplicity or order information is lost or added)",
+                    expected="[Reaction(re.reactants, re.products) for re in reactions]", found=show(brief)[:120])
         ok_s = leaves["none"] == RL
         if ok_s:
             m2 = as_map(leaves["text"])
             ok_s = bool(m2) and m2[2] == RL and not m2[3] and m2[1][0] == "fstr" and len(m2[1][1]) == 1 and m2[1][1][0][0] == "fmt" and m2[1][1][0][1] == m2[0]
-        ctx.check(bool(ok_s), "R3", "mode string/default", (NF, fn.lineno), "string modes compare f'{react:{mode}}' of every reaction; the default compares the reactions themselves",
-                  found=f"{show(leaves['text'])[:100]} / {show(leaves['none'])[:40]}")
+        m3 = as_map(leaves["text"])
+        read = leaves["none"][0] in ("attr", "comp", "list", "call") and bool(m3) and m3[2] == RL and m3[1][0] in ("fstr", "attr", "const", "tuple")
+        if ok_s or read:
+            ctx.check(bool(ok_s), "R3", "mode string/default", (NF, fn.lineno), "string modes compare f'{react:{mode}}' of every reaction; the default compares the reactions themselves",
+                      found=f"{show(leaves['text'])[:100]} / {show(leaves['none'])[:40]}")
+        else:
+            ctx.unrec("R3", "mode string/default", (NF, fn.lineno), f"the keys compared in the string / default modes are not read: {show(leaves['text'])[:100]} / {show(leaves['none'])[:40]}")
     else:
         ctx.unrec("R3", "check_list", W, f"mode dispatch not recognised: {show(chk)[:100]}")
     # the formatted names are in a total order (by name)
@@ -553,6 +612,28 @@ def _r3(ctx, pkg):
             if not ok and v[0] == "call" and v[1] == ("global", "sorted") and not v[3]:
                 m = as_map(v[2][0])
                 ok = bool(m) and m[1] == ("attr", m[0], "name") and m[2] == ("attr", SELF, attr)
+            if not ok:
+                # sorted(.., key=lambda s: s.name) is the same total order, spelled out
+                def by_name(c):
+                    if c[0] != "call" or c[1] != ("global", "sorted") or len(c[2]) != 1 or c[2][0] != ("attr", SELF, attr):
+                        return False
+                    kw = dict(c[3])
+                    k = kw.get("key")
+                    return set(kw) <= {"key"} and k is not None and k[0] == "lambda" and len(k[1]) == 1 and k[2] == ("attr", k[1][0], "name")
+                m = as_map(v)
+                ok = bool(m) and m[1] == ("attr", m[0], "name") and not m[3] and by_name(m[2])
+        # understood and wrong: the names listed in input order (no sort at all), or sorted by an explicit key other than the name;
+        # names produced by a helper / another construction are not read
+        understood = ok
+        if a and not ok:
+            v = simp(a[0][0])
+            m = as_map(v)
+            nosort = bool(m) and m[2] == ("attr", SELF, attr) and m[1] == ("attr", m[0], "name")
+            keyed = any(isinstance(x, tuple) and len(x) == 4 and x[0] == "call" and x[1] == ("global", "sorted") and any(k == "key" for k, _ in x[3]) for x in walk(v))
+            understood = nosort or keyed
+        if not understood:
+            ctx.unrec("R3", f"__format__:{nm} order", (RF, a[0][3] if a else ff.lineno), f"how the printed {attr} are ordered is not read: {found or 'no local built from self.' + attr}")
+            continue
         ctx.check(ok, "R3", f"__format__:{nm} order", (RF, a[0][3] if a else ff.lineno),
                   f"formatted {attr} are listed in name order (a total order on the printed tokens, so permutations format identically)" if ok else
                   f"the {attr} are not sorted by the printed name itself: two species that tie under the sort key keep their input order and permuted duplicates format differently",
